@@ -6,8 +6,15 @@
 use super::*;
 include!("/verif/contracts/common/vk.rs");
 const FAR: usize = isize::MAX as usize;
+// error paths build a MechError with a caller location and a formatted message: both are irrelevant here and not supported / costly under Kani
+#[cfg(kani)]
+fn fmt_stub(_args: core::fmt::Arguments<'_>) -> String { String::new() }
+#[cfg(kani)]
+fn here_stub() -> CompilerSourceRange { CompilerSourceRange { file: "", line: 0 } }
 
 #[cfg_attr(kani, kani::proof)]
+#[cfg_attr(kani, kani::stub(alloc::fmt::format, fmt_stub))]
+#[cfg_attr(kani, kani::stub(CompilerSourceRange::here, here_stub))]
 #[cfg_attr(kani, kani::unwind(4))]
 pub(crate) fn vkc03_as_usize_u8() {
   let v: u8 = vk::any();
@@ -17,6 +24,8 @@ pub(crate) fn vkc03_as_usize_u8() {
 }
 
 #[cfg_attr(kani, kani::proof)]
+#[cfg_attr(kani, kani::stub(alloc::fmt::format, fmt_stub))]
+#[cfg_attr(kani, kani::stub(CompilerSourceRange::here, here_stub))]
 #[cfg_attr(kani, kani::unwind(4))]
 pub(crate) fn vkc03_as_vecusize_u8() {
   let v: u8 = vk::any();
@@ -26,6 +35,8 @@ pub(crate) fn vkc03_as_vecusize_u8() {
 }
 
 #[cfg_attr(kani, kani::proof)]
+#[cfg_attr(kani, kani::stub(alloc::fmt::format, fmt_stub))]
+#[cfg_attr(kani, kani::stub(CompilerSourceRange::here, here_stub))]
 #[cfg_attr(kani, kani::unwind(4))]
 pub(crate) fn vkc03_as_index_u8() {
   let v: u8 = vk::any();
@@ -35,6 +46,8 @@ pub(crate) fn vkc03_as_index_u8() {
 }
 
 #[cfg_attr(kani, kani::proof)]
+#[cfg_attr(kani, kani::stub(alloc::fmt::format, fmt_stub))]
+#[cfg_attr(kani, kani::stub(CompilerSourceRange::here, here_stub))]
 #[cfg_attr(kani, kani::unwind(4))]
 pub(crate) fn vkc03_as_usize_u16() {
   let v: u16 = vk::any();
@@ -44,6 +57,8 @@ pub(crate) fn vkc03_as_usize_u16() {
 }
 
 #[cfg_attr(kani, kani::proof)]
+#[cfg_attr(kani, kani::stub(alloc::fmt::format, fmt_stub))]
+#[cfg_attr(kani, kani::stub(CompilerSourceRange::here, here_stub))]
 #[cfg_attr(kani, kani::unwind(4))]
 pub(crate) fn vkc03_as_vecusize_u16() {
   let v: u16 = vk::any();
@@ -53,6 +68,8 @@ pub(crate) fn vkc03_as_vecusize_u16() {
 }
 
 #[cfg_attr(kani, kani::proof)]
+#[cfg_attr(kani, kani::stub(alloc::fmt::format, fmt_stub))]
+#[cfg_attr(kani, kani::stub(CompilerSourceRange::here, here_stub))]
 #[cfg_attr(kani, kani::unwind(4))]
 pub(crate) fn vkc03_as_index_u16() {
   let v: u16 = vk::any();
@@ -62,6 +79,8 @@ pub(crate) fn vkc03_as_index_u16() {
 }
 
 #[cfg_attr(kani, kani::proof)]
+#[cfg_attr(kani, kani::stub(alloc::fmt::format, fmt_stub))]
+#[cfg_attr(kani, kani::stub(CompilerSourceRange::here, here_stub))]
 #[cfg_attr(kani, kani::unwind(4))]
 pub(crate) fn vkc03_as_usize_u32() {
   let v: u32 = vk::any();
@@ -71,6 +90,8 @@ pub(crate) fn vkc03_as_usize_u32() {
 }
 
 #[cfg_attr(kani, kani::proof)]
+#[cfg_attr(kani, kani::stub(alloc::fmt::format, fmt_stub))]
+#[cfg_attr(kani, kani::stub(CompilerSourceRange::here, here_stub))]
 #[cfg_attr(kani, kani::unwind(4))]
 pub(crate) fn vkc03_as_vecusize_u32() {
   let v: u32 = vk::any();
@@ -80,6 +101,8 @@ pub(crate) fn vkc03_as_vecusize_u32() {
 }
 
 #[cfg_attr(kani, kani::proof)]
+#[cfg_attr(kani, kani::stub(alloc::fmt::format, fmt_stub))]
+#[cfg_attr(kani, kani::stub(CompilerSourceRange::here, here_stub))]
 #[cfg_attr(kani, kani::unwind(4))]
 pub(crate) fn vkc03_as_index_u32() {
   let v: u32 = vk::any();
@@ -89,6 +112,8 @@ pub(crate) fn vkc03_as_index_u32() {
 }
 
 #[cfg_attr(kani, kani::proof)]
+#[cfg_attr(kani, kani::stub(alloc::fmt::format, fmt_stub))]
+#[cfg_attr(kani, kani::stub(CompilerSourceRange::here, here_stub))]
 #[cfg_attr(kani, kani::unwind(4))]
 pub(crate) fn vkc03_as_usize_u64() {
   let v: u64 = vk::any();
@@ -98,6 +123,8 @@ pub(crate) fn vkc03_as_usize_u64() {
 }
 
 #[cfg_attr(kani, kani::proof)]
+#[cfg_attr(kani, kani::stub(alloc::fmt::format, fmt_stub))]
+#[cfg_attr(kani, kani::stub(CompilerSourceRange::here, here_stub))]
 #[cfg_attr(kani, kani::unwind(4))]
 pub(crate) fn vkc03_as_vecusize_u64() {
   let v: u64 = vk::any();
@@ -107,6 +134,8 @@ pub(crate) fn vkc03_as_vecusize_u64() {
 }
 
 #[cfg_attr(kani, kani::proof)]
+#[cfg_attr(kani, kani::stub(alloc::fmt::format, fmt_stub))]
+#[cfg_attr(kani, kani::stub(CompilerSourceRange::here, here_stub))]
 #[cfg_attr(kani, kani::unwind(4))]
 pub(crate) fn vkc03_as_index_u64() {
   let v: u64 = vk::any();
@@ -116,6 +145,8 @@ pub(crate) fn vkc03_as_index_u64() {
 }
 
 #[cfg_attr(kani, kani::proof)]
+#[cfg_attr(kani, kani::stub(alloc::fmt::format, fmt_stub))]
+#[cfg_attr(kani, kani::stub(CompilerSourceRange::here, here_stub))]
 #[cfg_attr(kani, kani::unwind(4))]
 pub(crate) fn vkc03_as_usize_u128() {
   let v: u128 = vk::any();
@@ -125,6 +156,8 @@ pub(crate) fn vkc03_as_usize_u128() {
 }
 
 #[cfg_attr(kani, kani::proof)]
+#[cfg_attr(kani, kani::stub(alloc::fmt::format, fmt_stub))]
+#[cfg_attr(kani, kani::stub(CompilerSourceRange::here, here_stub))]
 #[cfg_attr(kani, kani::unwind(4))]
 pub(crate) fn vkc03_as_vecusize_u128() {
   let v: u128 = vk::any();
@@ -134,6 +167,8 @@ pub(crate) fn vkc03_as_vecusize_u128() {
 }
 
 #[cfg_attr(kani, kani::proof)]
+#[cfg_attr(kani, kani::stub(alloc::fmt::format, fmt_stub))]
+#[cfg_attr(kani, kani::stub(CompilerSourceRange::here, here_stub))]
 #[cfg_attr(kani, kani::unwind(4))]
 pub(crate) fn vkc03_as_index_u128() {
   let v: u128 = vk::any();
@@ -143,6 +178,8 @@ pub(crate) fn vkc03_as_index_u128() {
 }
 
 #[cfg_attr(kani, kani::proof)]
+#[cfg_attr(kani, kani::stub(alloc::fmt::format, fmt_stub))]
+#[cfg_attr(kani, kani::stub(CompilerSourceRange::here, here_stub))]
 #[cfg_attr(kani, kani::unwind(4))]
 pub(crate) fn vkc03_as_usize_i8() {
   let v: i8 = vk::any();
@@ -152,6 +189,8 @@ pub(crate) fn vkc03_as_usize_i8() {
 }
 
 #[cfg_attr(kani, kani::proof)]
+#[cfg_attr(kani, kani::stub(alloc::fmt::format, fmt_stub))]
+#[cfg_attr(kani, kani::stub(CompilerSourceRange::here, here_stub))]
 #[cfg_attr(kani, kani::unwind(4))]
 pub(crate) fn vkc03_as_vecusize_i8() {
   let v: i8 = vk::any();
@@ -161,6 +200,8 @@ pub(crate) fn vkc03_as_vecusize_i8() {
 }
 
 #[cfg_attr(kani, kani::proof)]
+#[cfg_attr(kani, kani::stub(alloc::fmt::format, fmt_stub))]
+#[cfg_attr(kani, kani::stub(CompilerSourceRange::here, here_stub))]
 #[cfg_attr(kani, kani::unwind(4))]
 pub(crate) fn vkc03_as_index_i8() {
   let v: i8 = vk::any();
@@ -170,6 +211,8 @@ pub(crate) fn vkc03_as_index_i8() {
 }
 
 #[cfg_attr(kani, kani::proof)]
+#[cfg_attr(kani, kani::stub(alloc::fmt::format, fmt_stub))]
+#[cfg_attr(kani, kani::stub(CompilerSourceRange::here, here_stub))]
 #[cfg_attr(kani, kani::unwind(4))]
 pub(crate) fn vkc03_as_usize_i16() {
   let v: i16 = vk::any();
@@ -179,6 +222,8 @@ pub(crate) fn vkc03_as_usize_i16() {
 }
 
 #[cfg_attr(kani, kani::proof)]
+#[cfg_attr(kani, kani::stub(alloc::fmt::format, fmt_stub))]
+#[cfg_attr(kani, kani::stub(CompilerSourceRange::here, here_stub))]
 #[cfg_attr(kani, kani::unwind(4))]
 pub(crate) fn vkc03_as_vecusize_i16() {
   let v: i16 = vk::any();
@@ -188,6 +233,8 @@ pub(crate) fn vkc03_as_vecusize_i16() {
 }
 
 #[cfg_attr(kani, kani::proof)]
+#[cfg_attr(kani, kani::stub(alloc::fmt::format, fmt_stub))]
+#[cfg_attr(kani, kani::stub(CompilerSourceRange::here, here_stub))]
 #[cfg_attr(kani, kani::unwind(4))]
 pub(crate) fn vkc03_as_index_i16() {
   let v: i16 = vk::any();
@@ -197,6 +244,8 @@ pub(crate) fn vkc03_as_index_i16() {
 }
 
 #[cfg_attr(kani, kani::proof)]
+#[cfg_attr(kani, kani::stub(alloc::fmt::format, fmt_stub))]
+#[cfg_attr(kani, kani::stub(CompilerSourceRange::here, here_stub))]
 #[cfg_attr(kani, kani::unwind(4))]
 pub(crate) fn vkc03_as_usize_i32() {
   let v: i32 = vk::any();
@@ -206,6 +255,8 @@ pub(crate) fn vkc03_as_usize_i32() {
 }
 
 #[cfg_attr(kani, kani::proof)]
+#[cfg_attr(kani, kani::stub(alloc::fmt::format, fmt_stub))]
+#[cfg_attr(kani, kani::stub(CompilerSourceRange::here, here_stub))]
 #[cfg_attr(kani, kani::unwind(4))]
 pub(crate) fn vkc03_as_vecusize_i32() {
   let v: i32 = vk::any();
@@ -215,6 +266,8 @@ pub(crate) fn vkc03_as_vecusize_i32() {
 }
 
 #[cfg_attr(kani, kani::proof)]
+#[cfg_attr(kani, kani::stub(alloc::fmt::format, fmt_stub))]
+#[cfg_attr(kani, kani::stub(CompilerSourceRange::here, here_stub))]
 #[cfg_attr(kani, kani::unwind(4))]
 pub(crate) fn vkc03_as_index_i32() {
   let v: i32 = vk::any();
@@ -224,6 +277,8 @@ pub(crate) fn vkc03_as_index_i32() {
 }
 
 #[cfg_attr(kani, kani::proof)]
+#[cfg_attr(kani, kani::stub(alloc::fmt::format, fmt_stub))]
+#[cfg_attr(kani, kani::stub(CompilerSourceRange::here, here_stub))]
 #[cfg_attr(kani, kani::unwind(4))]
 pub(crate) fn vkc03_as_usize_i64() {
   let v: i64 = vk::any();
@@ -233,6 +288,8 @@ pub(crate) fn vkc03_as_usize_i64() {
 }
 
 #[cfg_attr(kani, kani::proof)]
+#[cfg_attr(kani, kani::stub(alloc::fmt::format, fmt_stub))]
+#[cfg_attr(kani, kani::stub(CompilerSourceRange::here, here_stub))]
 #[cfg_attr(kani, kani::unwind(4))]
 pub(crate) fn vkc03_as_vecusize_i64() {
   let v: i64 = vk::any();
@@ -242,6 +299,8 @@ pub(crate) fn vkc03_as_vecusize_i64() {
 }
 
 #[cfg_attr(kani, kani::proof)]
+#[cfg_attr(kani, kani::stub(alloc::fmt::format, fmt_stub))]
+#[cfg_attr(kani, kani::stub(CompilerSourceRange::here, here_stub))]
 #[cfg_attr(kani, kani::unwind(4))]
 pub(crate) fn vkc03_as_index_i64() {
   let v: i64 = vk::any();
@@ -251,6 +310,8 @@ pub(crate) fn vkc03_as_index_i64() {
 }
 
 #[cfg_attr(kani, kani::proof)]
+#[cfg_attr(kani, kani::stub(alloc::fmt::format, fmt_stub))]
+#[cfg_attr(kani, kani::stub(CompilerSourceRange::here, here_stub))]
 #[cfg_attr(kani, kani::unwind(4))]
 pub(crate) fn vkc03_as_usize_i128() {
   let v: i128 = vk::any();
@@ -260,6 +321,8 @@ pub(crate) fn vkc03_as_usize_i128() {
 }
 
 #[cfg_attr(kani, kani::proof)]
+#[cfg_attr(kani, kani::stub(alloc::fmt::format, fmt_stub))]
+#[cfg_attr(kani, kani::stub(CompilerSourceRange::here, here_stub))]
 #[cfg_attr(kani, kani::unwind(4))]
 pub(crate) fn vkc03_as_vecusize_i128() {
   let v: i128 = vk::any();
@@ -269,6 +332,8 @@ pub(crate) fn vkc03_as_vecusize_i128() {
 }
 
 #[cfg_attr(kani, kani::proof)]
+#[cfg_attr(kani, kani::stub(alloc::fmt::format, fmt_stub))]
+#[cfg_attr(kani, kani::stub(CompilerSourceRange::here, here_stub))]
 #[cfg_attr(kani, kani::unwind(4))]
 pub(crate) fn vkc03_as_index_i128() {
   let v: i128 = vk::any();
